@@ -5,6 +5,7 @@ C07 — currents are linear in the source voltages; source data are V/I and Re(V
 a pulse wins); `Z.mulVec I = rhs` is the specification of `np.linalg.solve`.
 -/
 import Pmn.Proofs.Inst
+import Pmn.Props.C10
 import Mathlib.LinearAlgebra.Matrix.NonsingularInverse
 import Mathlib.LinearAlgebra.Matrix.ToLin
 import Mathlib.Tactic.FieldSimp
@@ -96,6 +97,20 @@ theorem C07_power_scale (v i c : ℂ) :
       = (c * (starRingEnd ℂ) c) * (v * (starRingEnd ℂ) i) := by ring
   rw [this, Complex.mul_conj, Complex.re_ofReal_mul]
   ring
+
+/-- **the dBi pattern does not depend on the excitation level**: with every pulse current multiplied by `c` (the
+response to voltages multiplied by `c`, `C07_solve_scale`) and the power multiplied by `|c|²` (`C07_power_scale`),
+the three linear gains of every direction — far-field model of C10 in free space, over ideal and over real ground —
+are unchanged -/
+theorem C07_pattern_scale (env : Pmn.Far.Env ℝ) (w t p k9c g0 power : ℝ) (ps : List (Pmn.Far.PulseF ℝ))
+    (I : List (Cx ℝ)) (c : Cx ℝ) (hI : I.length = ps.length) (hc : Cx.normSq c ≠ 0) (hP : power ≠ 0) :
+    Pmn.Far.linGains k9c (Cx.normSq c * power)
+        (Pmn.Far.h12 g0 (Pmn.Far.gvec env w t p ps (I.map (fun i => c * i))) t p)
+        (Pmn.Far.x34 g0 (Pmn.Far.gvec env w t p ps (I.map (fun i => c * i))) p)
+      = Pmn.Far.linGains k9c power (Pmn.Far.h12 g0 (Pmn.Far.gvec env w t p ps I) t p)
+          (Pmn.Far.x34 g0 (Pmn.Far.gvec env w t p ps I) p) := by
+  rw [Pmn.Props.C10.gvec_smul env w t p ps I c hI]
+  exact Pmn.Props.C10.C10_pattern_scale k9c g0 power t p _ c hc hP
 
 /-- the reported source power is `½ Re (V conj I)` -/
 theorem C07_power_def (v i : ℂ) :
